@@ -16,6 +16,11 @@ type Swarm struct {
 	MaxDeltaSize uint     `json:"maxDeltaSize"`
 	NonceSize    uint64   `json:"nonceSize"`
 	TimeDelta    uint64   `json:"timeDelta"`
+	// Cold: the run is the first thing its process does and nothing of the library runs before the concurrent tasks start
+	// (C20: first-use initialisation of process-wide state happens under concurrency)
+	Cold bool `json:"cold,omitempty"`
+	// FlushPools: the runtime's object pools are emptied at every task switch (C20; always on in cold runs)
+	FlushPools bool `json:"flushPools,omitempty"`
 	GenesisTime  uint64   `json:"genesisTime"`
 	MaxOpCount   uint     `json:"maxOpCount"`
 	Patches      []string `json:"patches"`
